@@ -5,7 +5,7 @@ from srp_cases import *
 import pyref
 
 MODULES = ["WowSrp.Props.C01"]
-THEOREMS = []
+THEOREMS = ["C01_case_invariant", "C01_storage_round_trip", "C01_secrets_agree", "C01_public_keys_accepted", "C01_same_padding", "C01_intoProof_panics_iff", "C01_login_exact", "C01_login_agrees", "C01_real_assumptions", "C01_real"]
 RULE = ("complete honest exchanges with injected salt, a, b, challenge: credentials of every length 1..16 over the printable "
         "range with random letter-case flips on the client side, with/without storage round trip, special private keys/salts "
         "(tiny, high-order zero bytes, low-order zero bytes, all-ones); sessions whose S has 1 (thorough: 2) low-order zero bytes "
